@@ -13,6 +13,9 @@ CONFIG = {
         "V.C03.eventID_redact_invariant_received",
         "V.C03.eventID_injective", "V.C03.hash_injective", "V.C03.eventID_alphabet", "V.C03.v12_create_roomID",
         "V.C03.v12_auth_first", "V.C03.reparse_same_partial", "V.C03.build_checked_partial", "V.C03.build_roundtrip",
+        # round 4 (fix e2681f5): the events Sign / SetUnsigned / SetUnsignedField return are the same event (struct, fields, ID,
+        # room ID, auth references)
+        "V.C03.signWith_same", "V.C03.setUnsigned_same", "V.C03.setUnsignedField_same", "V.C03.derived_same_accessors",
     ],
     "rule": "event.build: EventBuilder.Build itself against its model (VModel.EventBuild.build: struct marshalling with omitempty, "
             "format-1 references incl. the partial base64 decode of eventHashFromEventID, content hash, signEvent with the signature "
@@ -23,10 +26,12 @@ CONFIG = {
             "event.roundtrip (untrusted / trusted-with-ID / headered re-parse give the same ID, type, sender, room, state key, content, "
             "depth, ts, prev, auth; not redacted; CheckFields ok; v12: create room ID = '!'+event ID[1:], other events' first auth event "
             "= '$'+room_id[1:]), event.idprops (ID unchanged by SetUnsigned, by replacing / removing signatures, by Sign with another "
-            "key, by Redact; alphabet and length), event.iddiff (a second Build from a proto-event differing in exactly one of type, "
+            "key, by Redact; alphabet and length), event.derived (the FULL accessor tuple - ID, type, sender, room ID, state key, content, "
+            "depth, ts, prev, auth, each accessor under recover - of the events SetUnsigned, SetUnsignedField and Sign return equals the "
+            "original's, every version; a version-12 create event is built every round so that the room-ID clause is exercised), event.iddiff (a second Build from a proto-event differing in exactly one of type, "
             "sender, room, state key, protected / unprotected content key, depth, ts, prev, auth, redacts gets a different ID); plus the "
             "parse ops of C04 on the same events and their tamperings (model = accessor tuples). non-trivial = a property op on a built event",
-    "nontrivial": lambda op, impl: op.split("\t")[0] in ("event.roundtrip", "event.idprops", "event.iddiff"),
+    "nontrivial": lambda op, impl: op.split("\t")[0] in ("event.roundtrip", "event.idprops", "event.iddiff", "event.derived"),
     "trusted": COMMON_TRUSTED + [
         "encoding/json struct decoding of eventV1/eventV2/eventV3 modelled by VModel.EventParse.decodeFields",
         "sjson.DeleteBytes / SetBytes and gjson.GetBytes on top-level members modelled as first-occurrence delete / set / lookup",
@@ -60,6 +65,12 @@ CONFIG = {
         "Build output of these formats (Build writes no event_id). What remains outside: TRUSTED JSON (NewEventFromTrustedJSON, ...WithEventID, "
         "headered) that carries an event_id member in a hashed-ID format - the constructors take the stored ID from that member (struct "
         "decoding, case variants included) or from the argument, Redact() re-reads the exact member from the redacted JSON, and the two can differ",
-        "texts with ill-formed Unicode or duplicate keys are skipped by the driver",
+        "texts with ill-formed Unicode are skipped by the driver; texts with duplicate keys are skipped on the trusted / property ops and "
+        "REFUSED (model, specification, code since 15162d8) on the untrusted op",
+        "derived_same_accessors: hypothesis 'format 1 or a stored ID' (true of everything a constructor other than ...WithEventID(\"\") "
+        "returned); SetUnsignedField is modelled for keys without gjson path syntax on an absent / object unsigned member",
+        "eventID_redact_invariant: what remains outside is trusted JSON that carries an exact event_id member in a hashed-ID format: "
+        "NewEventFromTrustedJSON now computes the ID whatever the member says (fix 41b161b), Redact() still re-reads the member from the "
+        "redacted JSON, so the ID of such an event changes on redaction (caller's contract; not reachable from the receipt path or Build)",
     ],
 }
